@@ -433,7 +433,17 @@ func (f *FuncCtx) unary(e *ast.UnaryExpr, env *Env) Val {
 			}
 		}
 		f.note("channel receive modelled as havoc")
-		return f.freshVal(t, "recv")
+		rv := f.freshVal(t, "recv")
+		if f.C != nil && f.spec == nil {
+			if cls, ok := f.C.RecvAssume[exprStr(ast.Unparen(e.X))]; ok {
+				for _, cl := range cls {
+					sc := &specCtx{bound: []map[string]Val{{"a1": rv}}, old: f.entry, pos: e.Pos(), scope: f.fr.scope, pcs: f.PC}
+					f.assume(env, f.evalClause(cl, env, sc))
+					f.note("assumed about every value received from " + exprStr(e.X) + ": " + cl.Text)
+				}
+			}
+		}
+		return rv
 	case token.XOR:
 		x := f.expr(e.X, env)
 		if f.S.bv {
@@ -1065,7 +1075,25 @@ func (f *FuncCtx) eq(a, b Val) string {
 			}
 		}
 	}
+	if isNumLit(a.T) && isNumLit(b.T) {
+		if a.T == b.T {
+			return "true"
+		}
+		return "false"
+	}
 	return fmt.Sprintf("(= %s %s)", a.T, b.T)
+}
+
+func isNumLit(t string) bool {
+	if t == "" {
+		return false
+	}
+	for _, r := range t {
+		if r < '0' || r > '9' {
+			return false
+		}
+	}
+	return true
 }
 
 func (f *FuncCtx) binary(e *ast.BinaryExpr, env *Env) Val {
